@@ -507,9 +507,17 @@ func (e *Engine) tryStub(name string, fn *ssa.Function, args []Value, g *Term, p
 		return e.errorsIs(args[0], args[1], 0), true
 	case "github.com/obolnetwork/charon/app/errors.As", "errors.As":
 		e.StubsUsed[name]++
-		return Poison{why: "errors.As"}, true
+		initSynth()
+		return e.errorsAs(args[0], args[1], g, pos, 0), true
+	case "github.com/obolnetwork/charon/app/errors.Unwrap", "errors.Unwrap":
+		e.StubsUsed[name]++
+		initSynth()
+		return e.errorsUnwrap(args[0], g, pos), true
 	case "fmt.Sprintf", "fmt.Sprint", "fmt.Sprintln":
 		e.StubsUsed[name]++
+		if r, ok := e.concreteSprint(name, args); ok {
+			return r, true
+		}
 		return Poison{why: "fmt string"}, true
 	case "fmt.Println", "fmt.Printf", "fmt.Print", "fmt.Fprintf", "fmt.Fprintln":
 		e.StubsUsed[name]++
@@ -668,6 +676,32 @@ func (e *Engine) tryStub(name string, fn *ssa.Function, args []Value, g *Term, p
 		}
 	}
 	switch name {
+	case "strings.Contains", "strings.HasPrefix", "strings.HasSuffix", "strings.EqualFold":
+		a, ok1 := args[0].(StringV)
+		b, ok2 := args[1].(StringV)
+		if !ok1 || !ok2 || a.hasAtom() || b.hasAtom() {
+			return Poison{why: name + " on an unrepresentable string"}, true
+		}
+		var ds []*Term
+		for _, p := range a.alts {
+			for _, q := range b.alts {
+				var r bool
+				switch name {
+				case "strings.Contains":
+					r = strings.Contains(p.s, q.s)
+				case "strings.HasPrefix":
+					r = strings.HasPrefix(p.s, q.s)
+				case "strings.HasSuffix":
+					r = strings.HasSuffix(p.s, q.s)
+				default:
+					r = strings.EqualFold(p.s, q.s)
+				}
+				if r {
+					ds = append(ds, And(p.c, q.c))
+				}
+			}
+		}
+		return Or(ds...), true
 	case "slices.SortStableFunc", "slices.SortFunc", "sort.SliceStable", "sort.Slice":
 		// sorting = stable adjacent-exchange sort driven by the caller's comparator (an unstable sort is modelled by
 		// its stable behaviour); avoids the data-dependent loops of the library implementation
@@ -1125,4 +1159,145 @@ func (e *Engine) hashTreeRootByWalker(recv Value, recvT types.Type, g *Term, pos
 		vals[i] = t
 	}
 	return e.hashApply(tag, vals), true
+}
+
+// concreteSprint evaluates fmt.Sprint* when every operand is concrete (ints, strings, byte slices, bools).
+func (e *Engine) concreteSprint(name string, args []Value) (Value, bool) {
+	var format string
+	rest := args[0]
+	if name == "fmt.Sprintf" {
+		f, ok := concreteStr(args[0])
+		if !ok {
+			return nil, false
+		}
+		format = f
+		rest = args[1]
+	}
+	sl, ok := rest.(SliceV)
+	if !ok {
+		return nil, false
+	}
+	elems, ok := e.sliceElems(sl)
+	if !ok {
+		return nil, false
+	}
+	var goArgs []interface{}
+	for _, el := range elems {
+		iv, ok := el.(IfaceV)
+		if !ok || len(iv.alts) != 1 || !iv.alts[0].c.IsTrue() {
+			return nil, false
+		}
+		switch v := iv.alts[0].v.(type) {
+		case *Term:
+			if !v.IsConst() {
+				return nil, false
+			}
+			if v.W == 0 {
+				goArgs = append(goArgs, v.val != 0)
+			} else if isSigned(iv.alts[0].typ) {
+				goArgs = append(goArgs, v.SVal())
+			} else {
+				goArgs = append(goArgs, v.val)
+			}
+		case StringV:
+			cs, ok := v.Concrete()
+			if !ok {
+				return nil, false
+			}
+			goArgs = append(goArgs, cs)
+		case SliceV:
+			bs, ok := e.sliceElems(v)
+			if !ok {
+				return nil, false
+			}
+			out := make([]byte, len(bs))
+			for i, b := range bs {
+				t, ok := b.(*Term)
+				if !ok || !t.IsConst() {
+					return nil, false
+				}
+				out[i] = byte(t.val)
+			}
+			goArgs = append(goArgs, out)
+		default:
+			return nil, false
+		}
+	}
+	switch name {
+	case "fmt.Sprintf":
+		return Str(fmt.Sprintf(format, goArgs...)), true
+	case "fmt.Sprint":
+		return Str(fmt.Sprint(goArgs...)), true
+	}
+	return Str(fmt.Sprintln(goArgs...)), true
+}
+
+// errorsUnwrap: the cause of a synthetic error; Unwrap() of other error types if they have one.
+func (e *Engine) errorsUnwrap(err Value, g *Term, pos token.Pos) Value {
+	ev, ok := err.(IfaceV)
+	if !ok {
+		return IfaceV{}
+	}
+	var res Value = IfaceV{}
+	for _, al := range ev.alts {
+		var cause Value = IfaceV{}
+		if isSyntheticType(al.typ) {
+			cause = e.loadOr(al.v.(RefV)).(StructV).f[1]
+		} else if sel := e.prog.MethodSets.MethodSet(al.typ).Lookup(nil, "Unwrap"); sel != nil {
+			if fn := e.prog.MethodValue(sel); fn != nil && fn.Signature.Results().Len() == 1 {
+				cause = e.call(fn, []Value{al.v}, And(g, al.c), pos)
+			}
+		}
+		res = iteV(al.c, cause, res)
+	}
+	return res
+}
+
+// errorsAs implements errors.As along the cause chain: the first error whose dynamic type is assignable to the target's
+// element type is stored into the target.
+func (e *Engine) errorsAs(err, target Value, g *Term, pos token.Pos, depth int) *Term {
+	ev, ok := err.(IfaceV)
+	if !ok || depth > 6 {
+		return TS.False
+	}
+	tv, ok := target.(IfaceV)
+	if !ok || len(tv.alts) != 1 {
+		panic(unsupported("errors.As target"))
+	}
+	tptr, ok := tv.alts[0].typ.(*types.Pointer)
+	if !ok {
+		panic(unsupported("errors.As target is not a pointer"))
+	}
+	T := tptr.Elem()
+	res := TS.False
+	for _, al := range ev.alts {
+		match := false
+		if !isSyntheticType(al.typ) {
+			if it, isI := T.Underlying().(*types.Interface); isI {
+				match = types.Implements(al.typ, it)
+			} else {
+				match = types.Identical(al.typ, T)
+			}
+		}
+		if match {
+			var val Value = al.v
+			if _, isI := T.Underlying().(*types.Interface); isI {
+				val = IfaceV{[]IfaceAlt{{TS.True, al.typ, al.v}}}
+			}
+			e.store(tv.alts[0].v, And(g, al.c, Not(res)), val, pos)
+			res = Or(res, al.c)
+			continue
+		}
+		// walk on
+		var cause Value
+		if isSyntheticType(al.typ) {
+			cause = e.loadOr(al.v.(RefV)).(StructV).f[1]
+		} else {
+			cause = e.errorsUnwrap(IfaceV{[]IfaceAlt{{TS.True, al.typ, al.v}}}, And(g, al.c), pos)
+		}
+		if cv, ok := cause.(IfaceV); ok && len(cv.alts) > 0 {
+			res = Or(res, And(al.c, e.errorsAs(cv, target, And(g, al.c), pos, depth+1)))
+		}
+	}
+	return res
 }
